@@ -33,7 +33,7 @@ def generate(ctx, quick):
         res = vlib.tlc(f"{ctx.prop}-gen-{name}", "Gen_Tags", cfg, timeout=3000)
         if res["violated"]:
             raise vlib.ToolError(f"Gen_Tags {name}: generated model not well-formed")
-        cases = vlib.cases_from(res["out"])
+        cases = vlib.nonempty(vlib.cases_from(res["out"]), f"Gen_Tags {name}")
         ctx.add_tlc(res, f"Gen_Tags family {name}: {len(cases)} models x {len(cases[0]['runs'])} texts, expected tags and "
                          "candidate scores by RefTagRows/RefTokenCands")
         out += [(name, c) for c in cases]
